@@ -117,12 +117,18 @@ func (k Keeper) SendClaimTx(
 			ctx.Logger().
 				Error(fmt.Sprintf("an error occurred creating the claim transaction with app %s not found with evidence %v", evidence.ApplicationPubKey, evidence))
 		}
+		// relays may have been stored since the iterator decoded this evidence: seal what is stored now
+		node.EvidenceMutex.Lock()
+		if latest, er := pc.GetEvidence(evidence.SessionHeader, evidenceType, sdk.ZeroInt(), node.EvidenceStore); er == nil && latest.NumOfProofs > evidence.NumOfProofs {
+			evidence = latest
+		}
 		// generate the merkle root for this evidence
 		root := evidence.GenerateMerkleRoot(
 			evidence.SessionHeader.SessionBlockHeight,
 			pc.MaxPossibleRelays(app, k.SessionNodeCount(sessionCtx)).Int64(),
 			node.EvidenceStore,
 		)
+		node.EvidenceMutex.Unlock()
 		claimTxTotalTime := float64(time.Since(now).Milliseconds())
 		go func() {
 			pc.GlobalServiceMetric().AddClaimTiming(evidence.SessionHeader.Chain, claimTxTotalTime, &address)
